@@ -145,12 +145,13 @@ theorem loop_v1 {T} (pid : Id) (mw : Nat) (l : List Txn1) : ∀ (ms ms' : Mid) (
     Phi ms' + (l.map (·.fees.sum)).sum = Phi ms + claimsV1 ms l ∧ sfTot ms' = sfTot ms ∧
     l.foldlM applyTransaction ms = .ok ms' ∧ ms.pool ≤ ms'.pool ∧
     (CsOk ms → CsOk ms' ∧ Psi ms' + 10000 * claimsV1 ms l ≤ Psi ms + (ms'.pool - ms.pool) * sfTot ms) ∧
-    ms'.pool = ms.pool + (l.map (Txn1.taxes ms.base)).sum := by
+    ms'.pool = ms.pool + (l.map (Txn1.taxes ms.base)).sum ∧
+    (1 ≤ ms.base.P.maturityDelay → scW (wImm ms.base.child) ms + claimsV1 ms l ≤ scW (wImm ms.base.child) ms') := by
   induction l with
   | nil =>
     intro ms ms' R _ hI _ hF _ _ _ h
     simp only [List.foldlM_nil] at h; cases h
-    exact ⟨hI, hF, rfl, by simp [claimsV1], rfl, rfl, Nat.le_refl _, fun h => ⟨h, by simp [claimsV1]⟩, by simp⟩
+    exact ⟨hI, hF, rfl, by simp [claimsV1], rfl, rfl, Nat.le_refl _, fun h => ⟨h, by simp [claimsV1]⟩, by simp, fun _ => by simp [claimsV1]⟩
   | cons t l ih =>
     intro ms ms' R hc hI hsupp hF hchk hnw hsfb h
     rw [List.foldlM_cons, bind_eq_ok] at h
@@ -167,12 +168,12 @@ theorem loop_v1 {T} (pid : Id) (mw : Nat) (l : List Txn1) : ∀ (ms ms' : Mid) (
       intro sp hsp e he
       have := List.all_eq_true.mp hchk.1 sp hsp
       rw [he] at this; simpa using this
-    obtain ⟨hI1, hF1, hb1, hP1, hS1, hpl1, hsv1, hpf1⟩ := v1txn_conserves hc hI (hsupp t List.mem_cons_self) hF hlen
+    obtain ⟨hI1, hF1, hb1, hP1, hS1, hpl1, hsv1, hpf1, hwi1⟩ := v1txn_conserves hc hI (hsupp t List.mem_cons_self) hF hlen
       (hnw t List.mem_cons_self) hsfb hv ha
-    obtain ⟨hI2, hF2, hb2, hP2, hS2, ha2, hpl2, hsv2, hpf2⟩ := ih ms1 ms' R (hb1 ▸ hc) hI1
+    obtain ⟨hI2, hF2, hb2, hP2, hS2, ha2, hpl2, hsv2, hpf2, hwi2⟩ := ih ms1 ms' R (hb1 ▸ hc) hI1
       (fun t' ht' => hb1 ▸ hsupp t' (List.mem_cons_of_mem _ ht')) hF1 hchk.2
       (fun t' ht' => hnw t' (List.mem_cons_of_mem _ ht')) (hS1 ▸ hsfb) h2
-    refine ⟨hI2, hF2, hb2.trans hb1, ?_, hS2.trans hS1, ?_, Nat.le_trans hpl1 hpl2, ?_, ?_⟩
+    refine ⟨hI2, hF2, hb2.trans hb1, ?_, hS2.trans hS1, ?_, Nat.le_trans hpl1 hpl2, ?_, ?_, ?_⟩
     · simp only [List.map_cons, List.sum_cons]
       unfold claimsV1; rw [ha]; simp only []
       omega
@@ -187,6 +188,12 @@ theorem loop_v1 {T} (pid : Id) (mw : Nat) (l : List Txn1) : ∀ (ms ms' : Mid) (
         rw [← Nat.add_mul]; congr 1; unfold Cur at *; omega
       rw [hsplit]; omega
     · simp only [List.map_cons, List.sum_cons]; rw [hpf2, hpf1, hb1]; exact Nat.add_assoc _ _ _
+    · intro hmd
+      have h1 := hwi1 hmd
+      have h2 := hwi2 (by rw [hb1]; exact hmd)
+      rw [hb1] at h2
+      unfold claimsV1; rw [ha]; simp only []
+      omega
 
 theorem loop_v2 {T} (mw : Nat) (l : List Txn2) : ∀ (ms ms' : Mid) (R : List (Kind × Id)),
     Ctx T ms.base → ms.base.child ≥ ms.base.P.ephemeralFix → Inv T ms →
@@ -197,12 +204,13 @@ theorem loop_v2 {T} (mw : Nat) (l : List Txn2) : ∀ (ms ms' : Mid) (R : List (K
     Phi ms' + (l.map (·.fee)).sum + (l.map Txn2.forfeits).sum = Phi ms + claimsV2 ms l ∧ sfTot ms' = sfTot ms ∧
     l.foldlM applyV2Transaction ms = .ok ms' ∧ ms.pool ≤ ms'.pool ∧
     (CsOk ms → CsOk ms' ∧ Psi ms' + 10000 * claimsV2 ms l ≤ Psi ms + (ms'.pool - ms.pool) * sfTot ms) ∧
-    ms'.pool = ms.pool + (l.map Txn2.taxes).sum := by
+    ms'.pool = ms.pool + (l.map Txn2.taxes).sum ∧
+    (1 ≤ ms.base.P.maturityDelay → scW (wImm ms.base.child) ms + claimsV2 ms l ≤ scW (wImm ms.base.child) ms') := by
   induction l with
   | nil =>
     intro ms ms' R _ _ hI hF _ _ h
     simp only [List.foldlM_nil] at h; cases h
-    exact ⟨hI, hF, rfl, by simp [claimsV2], rfl, rfl, Nat.le_refl _, fun h => ⟨h, by simp [claimsV2]⟩, by simp⟩
+    exact ⟨hI, hF, rfl, by simp [claimsV2], rfl, rfl, Nat.le_refl _, fun h => ⟨h, by simp [claimsV2]⟩, by simp, fun _ => by simp [claimsV2]⟩
   | cons t l ih =>
     intro ms ms' R hc hfix hI hF hnw hsfb h
     rw [List.foldlM_cons, bind_eq_ok] at h
@@ -210,10 +218,10 @@ theorem loop_v2 {T} (mw : Nat) (l : List Txn2) : ∀ (ms ms' : Mid) (R : List (K
     unfold stepV2 at h1
     rw [bind_eq_ok] at h1; obtain ⟨u, hv, ha⟩ := h1
     simp only [List.flatMap_cons, List.append_assoc] at hF
-    obtain ⟨hI1, hF1, hb1, hP1, hS1, hpl1, hsv1, hpf1⟩ := v2txn_conserves hc hfix hI hF (hnw t List.mem_cons_self) hsfb hv ha
-    obtain ⟨hI2, hF2, hb2, hP2, hS2, ha2, hpl2, hsv2, hpf2⟩ := ih ms1 ms' R (hb1 ▸ hc) (hb1 ▸ hfix) hI1 hF1
+    obtain ⟨hI1, hF1, hb1, hP1, hS1, hpl1, hsv1, hpf1, hwi1⟩ := v2txn_conserves hc hfix hI hF (hnw t List.mem_cons_self) hsfb hv ha
+    obtain ⟨hI2, hF2, hb2, hP2, hS2, ha2, hpl2, hsv2, hpf2, hwi2⟩ := ih ms1 ms' R (hb1 ▸ hc) (hb1 ▸ hfix) hI1 hF1
       (fun t' ht' => hnw t' (List.mem_cons_of_mem _ ht')) (hS1 ▸ hsfb) h2
-    refine ⟨hI2, hF2, hb2.trans hb1, ?_, hS2.trans hS1, ?_, Nat.le_trans hpl1 hpl2, ?_, ?_⟩
+    refine ⟨hI2, hF2, hb2.trans hb1, ?_, hS2.trans hS1, ?_, Nat.le_trans hpl1 hpl2, ?_, ?_, ?_⟩
     · simp only [List.map_cons, List.sum_cons]
       unfold claimsV2; rw [ha]; simp only []
       c1_omega
@@ -228,6 +236,12 @@ theorem loop_v2 {T} (mw : Nat) (l : List Txn2) : ∀ (ms ms' : Mid) (R : List (K
         rw [← Nat.add_mul]; congr 1; unfold Cur at *; omega
       rw [hsplit]; omega
     · simp only [List.map_cons, List.sum_cons]; rw [hpf2, hpf1]; exact Nat.add_assoc _ _ _
+    · intro hmd
+      have h1 := hwi1 hmd
+      have h2 := hwi2 (by rw [hb1]; exact hmd)
+      rw [hb1] at h2
+      unfold claimsV2; rw [ha]; simp only []
+      omega
 
 -- ------------------------------------------------------------------ miner payouts, subsidy, expirations
 
@@ -355,7 +369,7 @@ theorem loop_expiring {T} (l : List (Fc1Elem × List Id)) : ∀ (ms ms' : Mid) (
       obtain ⟨hI1, hA1, hP1, hS1, hp1, hb1⟩ := resolveFc1_spec hc hI hres false
       have hF1 := hF.agree hA1 (fun q hq => hres.not_fresh hF q hq)
       have hF1' := Fresh.zip_prefix a.1.fc.missed a.2 hF1
-      obtain ⟨hI2, hA2, hF2, hP2, hS2, hp2, hb2⟩ := payOuts_spec (a.1.fc.missed.zip a.2) _ _ (hb1 ▸ hc) hI1
+      obtain ⟨hI2, hA2, hF2, hP2, hS2, hp2, hb2, _⟩ := payOuts_spec (a.1.fc.missed.zip a.2) _ _ (hb1 ▸ hc) hI1
         (by simpa [List.map_map] using hF1')
       obtain ⟨hI3, hF3, hb3, hP3, hS3, hp3⟩ := ih _ ms' R (by rw [hb2, hb1]; exact hc) hI2
         (fun x hx' => by rw [hb2, hb1]; exact hx x (List.mem_cons_of_mem _ hx')) hF2 h2
@@ -458,11 +472,11 @@ theorem block_conserves {L : Ledger} {b : Block} {pid : Id} {msv : Mid}
   unfold Block.created at hF0
   have hsf0 : sfTot (newMid L) < u64Limit := by rw [sfTot_newMid]; exact hw.sf_bound
   -- v1 transactions
-  obtain ⟨hI1, hF1, hb1, hP1, hS1, ha1, hpl1, hsv1, hpf1⟩ := loop_v1 pid b.maxWeight b.txns1 (newMid L) ms1 _ hc hI0 hsupp hF0 hcov.1
+  obtain ⟨hI1, hF1, hb1, hP1, hS1, ha1, hpl1, hsv1, hpf1, _⟩ := loop_v1 pid b.maxWeight b.txns1 (newMid L) ms1 _ hc hI0 hsupp hF0 hcov.1
     hnw.1 hsf0 hl1
   have hb1' : ms1.base = L := hb1
   -- v2 transactions
-  obtain ⟨hI2, hF2, hb2, hP2, hS2, ha2, hpl2, hsv2, hpf2⟩ := loop_v2 b.maxWeight b.v2txns ms1 msv _ (hb1' ▸ hc) (hb1' ▸ hfix) hI1 hF1
+  obtain ⟨hI2, hF2, hb2, hP2, hS2, ha2, hpl2, hsv2, hpf2, _⟩ := loop_v2 b.maxWeight b.v2txns ms1 msv _ (hb1' ▸ hc) (hb1' ▸ hfix) hI1 hF1
     hnw.2 (hS1 ▸ hsf0) hl2
   have hb2' : msv.base = L := hb2.trans hb1'
   -- miner payouts
